@@ -79,3 +79,11 @@ Qed.
 Theorem C11_python_raise_sites_present :
   forallb (fun p => has_raise (fst p) (snd p)) required_py_raises = true.
 Proof. exact python_raise_sites_present. Qed.
+
+(* bounded time, on the fuelled model of slic's seeding loops `for (y = S/2; y < Ny; y += S)`: under the guard 0 < S the loop
+   ends within Ny + 1 iterations with seeds inside the image; with S = 0 (the call the guard now rejects) it never ends *)
+Theorem C11_slic_seeding_terminates_under_guard : forall S Ny, 0 < S -> 0 <= Ny ->
+  exists ys, seed_loop (Z.to_nat Ny + 1) (Z.quot S 2) S Ny nil = Some ys /\ Forall (fun v => 0 <= v < Ny) ys.
+Proof. exact slic_seeding_terminates. Qed.
+Theorem C11_slic_seeding_hangs_without_guard : forall Ny fuel y acc, y < Ny -> seed_loop fuel y 0 Ny acc = None.
+Proof. exact slic_seeding_hangs_without_guard. Qed.
